@@ -7,6 +7,9 @@ from vf.ref.tx_ref import Tx, compact, h256
 from vf.runner import Acc, filler
 
 PROPERTY = "C11"
+CONCUR_FILES = ('bits/bips/bip143.py', 'bits/tx.py', 'bits/utils.py')
+# (thread a, thread b), warm-up: indices into seq_ops() - the ordinary single-case checks run concurrently (vf/concur.py)
+CONCUR_SCEN = [((0, 1), ()), ((7, 8), (9,)), ((8, 8), (7,)), ((3, 5), (11,))]
 LEVEL = "exploration"
 RULE = ("FULL product over (n_in 1..4 [thorough 1..8], n_out 1..4 [1..8], EVERY input index, all six sighash flags) - so SINGLE "
         "with index <, = and > number of outputs occurs - crossed with ALL assignments within deviation <= 2 over: scriptSig "
@@ -16,6 +19,7 @@ RULE = ("FULL product over (n_in 1..4 [thorough 1..8], n_out 1..4 [1..8], EVERY 
         "the repository's own tests. non-trivial = flag != ALL, index > 0, or any deviation.")
 ASSUMPTIONS = ["vf/ref/bip143_ref.py transcribes BIP143; scriptCode is passed pre-serialised as the function's contract takes it"]
 OBLIGATIONS = {
+    "concurrent_calls": "interleavings of two concurrent calls (single-case checks in two threads, cold and after warm-up calls)",
     "history_sequences": "operation sequences (non-initial process states) explored",
     "long_structure": "a transaction with more than 1000 inputs or outputs",
     "single_index_ge_outputs": "SIGHASH_SINGLE with input index >= number of outputs",
@@ -97,6 +101,9 @@ CASES = {"msg": chk_msg}
 
 
 def run_case(kind, case):
+    if kind == "concurcase":
+        from vf import concur
+        return concur.replay_cases(run_case, PROPERTY, case, CONCUR_FILES)
     if kind == "seq":
         from vf import seqexplore
         return seqexplore.replay(run_case, case)
@@ -128,11 +135,16 @@ def long_cases(seed):
 
 def jobs(tier, seed):
     from vf.runner import seq_jobs
-    return [{"name": f"msg/{sh}", "part": "msg", "shard": [sh, 16], "weight": 5} for sh in range(16)] + seq_jobs(2, weight=2) + \
+    return [{"name": f"msg/{sh}", "part": "msg", "shard": [sh, 16], "weight": 5} for sh in range(16)] + seq_jobs(2, weight=2) + __import__("vf.runner", fromlist=["x"]).concur_jobs(len(CONCUR_SCEN)) + \
         [{"name": "long", "part": "long", "weight": 4}]
 
 
 def run_job(job):
+    if job["part"] == "concurcase":
+        from vf.runner import run_concur_job
+        ops = seq_ops(dict(job, shard=[0, 1]))
+        scens = [{"threads": [ops[i] for i in th], "warm": [ops[i] for i in wm]} for th, wm in CONCUR_SCEN]
+        return run_concur_job(job, scens, run_case, PROPERTY, CONCUR_FILES)
     if job["part"] == "seq":
         from vf.runner import run_seq_job
         return run_seq_job(job, seq_ops(job), run_case)
